@@ -1557,7 +1557,7 @@ fn partial_size_reached<const R: usize, const P: usize>() {
     forget(d);
 }
 
-//@ harness props=C16,C08,C11 tier=quick unwind=8 unwindset=process_mode:4 mem_gb=4 timeout=600 native=no
+//@ harness props=C16,C08,C11 tier=quick unwind=8 unwindset=process_mode:10 mem_gb=4 timeout=600 native=no
 //@ bound: process_stream with the declared size already reached (any size <= produced), 6 symbolic input bytes, abstract symbols
 #[cfg_attr(kani, kani::proof)]
 #[cfg_attr(kani, kani::stub(std::fmt::format, crate::verif_common::stub_format))]
@@ -1567,7 +1567,7 @@ pub fn partial_size_reached_r6() {
     partial_size_reached::<6, 0>()
 }
 
-//@ harness props=C16,C08,C11 tier=quick unwind=22 unwindset=process_mode:4 mem_gb=4 timeout=600 native=no
+//@ harness props=C16,C08,C11 tier=quick unwind=22 unwindset=process_mode:10 mem_gb=4 timeout=600 native=no
 //@ bound: process_stream with the declared size already reached while 3 bytes sit in the carry-over buffer, 6 symbolic input bytes
 #[cfg_attr(kani, kani::proof)]
 #[cfg_attr(kani, kani::stub(std::fmt::format, crate::verif_common::stub_format))]
